@@ -151,14 +151,14 @@ Proof. intros []; reflexivity. Qed.
 Theorem spec_holds_model : forall dfault hfault b db0 free df hf,
   let s := run_op dfault hfault [b] db0 in
   spec_holds (mk_case free df hf false (rev (s_out s)) (last (s_err s) XNil) false
-                      (match_of s db0 [b]) 0%Z (s_open s)) = true.
+                      (match_of s db0 [b]) 0%Z (s_open s) false) = true.
 Proof.
   intros dfault hfault b db0 free df hf. cbv zeta.
   destruct (op_spec dfault hfault [b] db0) as (A1 & _).
   destruct (error_reported dfault hfault [b] db0) as (R1 & R2).
   destruct (single_pipeline_all_or_nothing dfault hfault b db0) as [[E1 E2] | [E1 E2]]; cbv zeta in *;
     set (s := run_op dfault hfault [b] db0) in *;
-    unfold spec_holds; cbn [o_in_use o_open_tx o_evs o_err o_match]; rewrite A1; cbn [Z.eqb andb];
+    unfold spec_holds; cbn [o_in_use o_open_tx o_evs o_err o_match c_pre c_natural]; rewrite A1; cbn [Z.eqb andb];
     unfold match_of; cbn [length seq map firstn total_stmts fold_right last nth].
   - (* nothing failed *)
     destruct (filter ev_failed (rev (s_out s))) as [|e fl] eqn:Ef.
